@@ -22,7 +22,8 @@ RtDemands(e) ==
     \* one read buffer: this record, then refilled with the following day and parsed again
     <<"C01.reuse",  (fitsE => (e.reuse[1] = good /\ e.reuse[3] = good /\ e.inkept)) /\ (fitsN => e.reuse[2] = <<1, nx.y, nx.m, nx.d>>)>>,
     <<"C01.fmt_both", e.both = ext \o bas>>,
-    <<"H.new",      e.new = <<e.y, e.m, e.d>> >>,           \* harness sanity: a calendar date
+    <<"H.valid",    ValidYMD(e.y, e.m, e.d)>>,               \* harness sanity: the driver asked for a calendar date
+    <<"C01.new",    e.new = <<e.y, e.m, e.d>> >>,           \* date.New of a calendar date is that date (in every process time zone)
     <<"H.chain",    e.chain = 1 => (ctx.k = "date" /\ x = NextDay(ctx.v)) >>,
     <<"X.accessors", e.acc = <<e.y, e.m, e.d>> >>,                 \* Year(), Month(), Day()
     <<"X.monthname", e.mname = MonthNames[e.m]>>,
